@@ -33,6 +33,7 @@ CONSTANTS MaxObj,     \* objects per scenario
           Kinds,      \* constructor kinds explored
           WithFail,   \* explore failure points of constructors
           WithUninj,  \* also failure points the driver cannot inject (model-only)
+          WithRehs,   \* explore a second websocket handshake on the same stream
           WithGc,     \* explore in-flight operations, dropping references, GC
           TruncK,     \* byte offsets at which the websocket server cuts its response short
           BUG_ConnectLeak,      \* Dial tcp/udp: error paths after socket() do not close it
@@ -43,6 +44,7 @@ CONSTANTS MaxObj,     \* objects per scenario
           BUG_PacketNoGuard,    \* packetConn.Close has no closed guard
           BUG_TimerRevive,      \* Timer.Cancel after Close puts the timer back to ready
           BUG_AdapterRawClose,  \* AsyncAdapter.Close closes the net.Conn's descriptor number itself
+          BUG_WsResetLeak,      \* websocket: a second handshake on the same stream forgets the previous net.Conn without closing it
           BUG_EarlyDeregister,  \* completion handlers Deregister although the other direction is parked
           BUG_SocketNonblockLeak, \* internal.socket(): failed SetNonblock returns the fd with an error, callers drop it
           BUG_AcceptLeak        \* accept(): failed getsockname drops the accepted descriptor
@@ -60,12 +62,12 @@ vars     == <<implvars, mon, hist, done>>
 
 M == INSTANCE FdMon
 
-NFd  == 3 * MaxObj + MaxPlug + 2
+NFd  == 5 * MaxObj + MaxPlug + 2
 Fds  == 0 .. (NFd - 1)
 Objs == 1 .. MaxObj
 
 NoObj == [kind |-> "", st |-> "none", fd |-> -1, fd2 |-> -1, closed |-> FALSE, ncl |-> 0,
-          evr |-> FALSE, evw |-> FALSE, refs |-> FALSE, nconn |-> "none", coll |-> FALSE]
+          evr |-> FALSE, evw |-> FALSE, refs |-> FALSE, nconn |-> "none", coll |-> FALSE, gen |-> 0]
 
 \* ---------------------------------------------------------------------------
 \* constructors: step tables
@@ -163,6 +165,11 @@ Lowest(t) == CHOOSE f \in Free(t) : \A g \in Free(t) : f <= g
 RECURSIVE AllocN(_, _, _)
 AllocN(t, n, owner) == IF n = 0 THEN t ELSE AllocN([t EXCEPT ![Lowest(t)] = owner], n - 1, owner)
 
+\* syscall.Close(number): closes whatever is there
+CloseNum(t, f) == IF f >= 0 /\ t[f] # 0 THEN [t EXCEPT ![f] = 0] ELSE t
+\* IO.Deregister(&slot): clears the registry entry of slot.Fd whoever put it there
+Dereg(r, f)    == IF f >= 0 THEN [r EXCEPT ![f] = 0] ELSE r
+
 SortedSeq(S) == SetToSortSeq(S, LAMBDA a, b : a < b)
 
 Ev(name, o, kind, fail, ok, api, dir, coll, before, after, hnew, probe) ==
@@ -214,7 +221,7 @@ Make(kind, fail, arg) ==
   /\ nmade' = o
   /\ tab' = t4
   /\ objs' = [objs EXCEPT ![o] =
-        IF out.ok THEN [NoObj EXCEPT !.kind = kind, !.st = "live", !.refs = TRUE,
+        IF out.ok THEN [NoObj EXCEPT !.kind = kind, !.st = "live", !.refs = TRUE, !.gen = 1,
                                      !.fd = IF Len(fdsq) >= 1 THEN fdsq[1] ELSE -1,
                                      !.fd2 = IF Len(fdsq) >= 2 THEN fdsq[2] ELSE -1,
                                      !.nconn = IF kind \in {"adp", "ws", "wsa"} THEN "open" ELSE "none"]
@@ -222,6 +229,32 @@ Make(kind, fail, arg) ==
   /\ mon' = m4
   /\ hist' = Append(hist, [Cmd("Make", o, kind, fail, "", B2I(out.ok), out.held, 0, 0) EXCEPT !.arg = arg])
   /\ UNCHANGED <<reg, nplug>>
+
+\* the event kind of a websocket stream that has been handshaken again is "ws2" / "wsa2"
+EvKind(ob) == IF ob.gen > 1 THEN ob.kind \o "2" ELSE ob.kind
+
+\* Handshake / AsyncHandshake again on the same stream (reconnect): reset() drops
+\* the previous net.Conn, then the constructor steps run as in Make
+Rehandshake(o, fail, arg) ==
+  LET ob   == objs[o]
+      out  == Outcome(ob.kind, fail)
+      t0   == IF BUG_WsResetLeak \/ ob.nconn # "open" THEN tab ELSE CloseNum(tab, ob.fd)
+      t2   == AllocN(t0, out.held, IF out.ok THEN o ELSE -1)
+      mine == Census(t2) \ Census(t0)
+      t3   == AllocN(t2, HPost(ob.kind, out.ok), -2)
+      ob2  == [ob EXCEPT !.gen = 2, !.fd = IF out.ok THEN CHOOSE f \in mine : TRUE ELSE -1,
+                         !.nconn = IF out.ok THEN "open" ELSE "closed"]
+      m2   == M!Step(mon, Ev("Ctor", o, EvKind(ob2), fail, B2I(out.ok), 0, "", 0, Census(tab), Census(t2), {}, {}))
+      m3   == IF t3 = t2 THEN m2
+              ELSE M!Step(m2, Ev("Harness", 0, ob.kind, "none", 1, 0, "", 0, Census(t2), Census(t3), Census(t3) \ Census(t2), {}))
+  IN
+  /\ ob.st = "live" /\ ob.kind \in {"ws", "wsa"} /\ ob.gen = 1 /\ ~ob.closed /\ ob.refs
+  /\ tab' = t3
+  /\ objs' = [objs EXCEPT ![o] = ob2]
+  /\ mon' = m3
+  /\ hist' = Append(hist, [Cmd("Rehandshake", o, ob.kind, fail, "", B2I(out.ok), out.held,
+                               IF t0 = tab THEN 0 ELSE 1, 0) EXCEPT !.arg = arg])
+  /\ UNCHANGED <<reg, nmade, nplug>>
 
 \* the harness allocates a descriptor of its own (between two Closes)
 Plug ==
@@ -236,10 +269,6 @@ Plug ==
 \* ---------------------------------------------------------------------------
 \* Close
 \* ---------------------------------------------------------------------------
-\* syscall.Close(number): closes whatever is there
-CloseNum(t, f) == IF f >= 0 /\ t[f] # 0 THEN [t EXCEPT ![f] = 0] ELSE t
-\* IO.Deregister(&slot): clears the registry entry of slot.Fd whoever put it there
-Dereg(r, f)    == IF f >= 0 THEN [r EXCEPT ![f] = 0] ELSE r
 
 Guarded(ob) ==
   CASE ob.kind = "lst"   -> ~BUG_ListenerNoGuard
@@ -256,7 +285,7 @@ CloseEffect(o) ==
         ob |-> [ob EXCEPT !.closed = TRUE, !.ncl = @ + 1, !.evr = FALSE, !.evw = FALSE, !.nconn = "closed"]]
   ELSE IF ob.kind \in {"ws", "wsa"} THEN
        \* CloseNextLayer: net.Conn.Close, guarded by conn = nil
-       [t |-> CloseNum(tab, ob.fd), r |-> reg,
+       [t |-> IF ob.nconn = "open" THEN CloseNum(tab, ob.fd) ELSE tab, r |-> reg,
         ob |-> [ob EXCEPT !.closed = TRUE, !.ncl = @ + 1, !.nconn = "closed"]]
   ELSE [t |-> CloseNum(CloseNum(tab, ob.fd), ob.fd2),
         r |-> IF ob.kind \in {"io", "timer"} THEN reg ELSE Dereg(reg, ob.fd),
@@ -271,7 +300,7 @@ DoClose(o) ==
   /\ ob.st = "live" /\ ob.ncl < MaxClose /\ ob.refs     \* ("mir": Destroy)
   /\ tab' = ef.t /\ reg' = ef.r
   /\ objs' = [objs EXCEPT ![o] = ef.ob]
-  /\ mon' = M!Step(mon, Ev("Close", o, ob.kind, "none", 1, 1, "", 0, Census(tab), Census(ef.t), {}, {}))
+  /\ mon' = M!Step(mon, Ev("Close", o, EvKind(ob), "none", 1, 1, "", 0, Census(tab), Census(ef.t), {}, {}))
   /\ hist' = Append(hist, Cmd("Close", o, ob.kind, "none", "", 1, 0, Cardinality(lost), 0))
   /\ UNCHANGED <<nmade, nplug>>
 
@@ -360,6 +389,11 @@ Step ==
   /\ \/ \E k \in Kinds : \E f \in ({"none"} \cup (IF WithFail THEN FailPoints(k) ELSE {})) :
             \E a \in Args(f) : Make(k, f, a)
      \/ Plug
+     \/ /\ WithRehs
+        /\ \E o \in {x \in Objs : objs[x].kind \in {"ws", "wsa"}} :
+             \* (no exhaustion here: reset() frees a number first, so RLIMIT_NOFILE cannot make the dial fail)
+             \E f \in ({"none"} \cup (IF WithFail THEN FailPoints(objs[o].kind) \ EmFails(objs[o].kind) ELSE {})) :
+               \E a \in Args(f) : Rehandshake(o, f, a)
      \/ \E o \in Objs : DoClose(o) \/ TimerCancel(o) \/ NetClose(o)
      \/ \E o \in Objs : \E d \in {"r", "w"} : Park(o, d) \/ Fire(o, d) \/ Drop(o, d)
 
